@@ -50,6 +50,11 @@ def has_backtracking_or(p) -> bool:
     return any(v[0] == "OR" and not L.or_is_dispatch(v, p) for v, _ in walk_vpats(p))
 
 
+def has_tagged_dispatch(p) -> bool:
+    """the pattern is outside `backOk`: some OpIdDispatchOr has a tag variable"""
+    return any(v[0] == "OR" and v[3] and L.or_is_dispatch(v, p) for v, _ in walk_vpats(p))
+
+
 def has_or(p) -> bool:
     return any(v[0] == "OR" for v, _ in walk_vpats(p))
 
@@ -282,8 +287,15 @@ def eval_cases(args):
         bg = L.build_graph(c["graph"])
         gt = L.enc_graph(c["graph"])
         r = {"real": L.run_real(bp, bg, c["root"], c["rm"])}
-        lines.append(L.case_line("impl", c, pt, gt))
+        # `implx` = OV.C06.patternMatchX, the matcher with its exception channel (equal to `impl` = patternMatch
+        # wherever it returns: theorem matchX_refines)
+        lines.append(L.case_line("implx", c, pt, gt))
         lines.append(L.case_line("spec", c, pt, gt))
+        if has_tagged_dispatch(c["pattern"]):
+            # outside `backOk` no theorem relates the total model `patternMatch` (the subject of match_sound) to
+            # `patternMatchX`: it is compared with the code as well, wherever the code returns
+            r["want_pure"] = True
+            lines.append(L.case_line("impl", c, pt, gt))
         if do_commute and c.get("commute"):
             r["real_commute"] = L.run_real_commute(bp, bg, c["root"], c["rm"], c["pattern"]["cond"])
             lines.append(L.case_line("commute", c, pt, gt))
@@ -292,6 +304,16 @@ def eval_cases(args):
                 r["commute_spec"] = []
                 for m in L.commute_masks(c["pattern"]):
                     lines.append(L.case_line("spec", c, L.enc_pattern(L.swapped_pattern(c["pattern"], m)), gt))
+        if c.get("hist"):
+            # the SAME Pattern object and the SAME ir.Graph object: edit in place, match again
+            r["hist"] = []
+            for st in c["hist"]:
+                L.rebuild_in_place(bg, st["graph"])
+                sub = {"pattern": c["pattern"], "graph": st["graph"], "root": st["root"], "rm": st["rm"]}
+                r["hist"].append({"real": L.run_real(bp, bg, st["root"], st["rm"])})
+                gt2 = L.enc_graph(st["graph"])
+                lines.append(L.case_line("implx", sub, pt, gt2))
+                lines.append(L.case_line("spec", sub, pt, gt2))
         cases_by_res[id(r)] = c
         res.append(r)
     outs = _ask_driver(lines) if lines else []
@@ -302,6 +324,9 @@ def eval_cases(args):
         r["impl"] = outs[k]
         r["spec"] = outs[k + 1]
         k += 2
+        if r.pop("want_pure", False):
+            r["impl_pure"] = outs[k]
+            k += 1
         if "real_commute" in r:
             r["commute"] = outs[k]
             k += 1
@@ -309,6 +334,10 @@ def eval_cases(args):
                 nm = len(L.commute_masks(cases_by_res[id(r)]["pattern"]))
                 r["commute_spec"] = outs[k : k + nm]
                 k += nm
+        for h in r.get("hist", []):
+            h["impl"] = outs[k]
+            h["spec"] = outs[k + 1]
+            k += 2
     return res
 
 
@@ -342,15 +371,21 @@ def judge(case, r, stats: Counter):
     tie = None
     if real != impl:
         tie = f"real={real} ; model={impl}"
+    if "impl_pure" in r and "EXC:" not in real:
+        stats["total_model_compared_outside_backOk"] += 1
+        if r["impl_pure"] != real:
+            tie = (tie + " ; " if tie else "") + f"total model: real={real} ; patternMatch={r['impl_pure']}"
     if real == "CTOR-ERR" or impl == "CTOR-ERR":
         stats["ctor_refused"] += 1
         return tie, None, None
     body = real.split(" ", 1)[1] if real.startswith("on=") else real
     if body.startswith("EXC:"):
         stats["real_exception"] += 1
-        if exception_explained(case, body):
-            tie = None  # merge_current_match raises (findings C06-F8/F9); the model has no exception channel and
-            # goes on with the next alternative, so its answer is not compared here
+        stats["real_exception_" + body[4:]] += 1
+        if real == impl:
+            stats["exception_model_agrees"] += 1
+        # the model restates the raise sites of merge_current_match (OV.Model.C06Exc), so the tie is compared
+        # here as everywhere else; for the property a raise is a failure (open finding C06-F9)
         return tie, f"the matcher raised {body[4:]}", "exception:" + body[4:]
     sols = parse_spec(spec)
     stats["spec_instances_" + ("0" if not sols else "1" if len(sols) == 1 else "many")] += 1
@@ -373,14 +408,8 @@ def judge(case, r, stats: Counter):
 
 
 def commute_agree(case, real: str, model: str) -> bool:
-    if real == model:
-        return True
-    a, b = real.split(" || "), model.split(" || ")
-    if len(a) != len(b) or a[0] != b[0]:
-        return False
-    # a variant on which merge_current_match raises (finding C06-F8) is not compared
-    return all(x == y or (exception_explained(case, x) and x.split(" #K ")[-1] == y.split(" #K ")[-1])
-               for x, y in zip(a[1:], b[1:]))
+    """every variant, exceptions included (the driver matches the variants with patternMatchX)"""
+    return real == model
 
 
 def judge_commute(case, r, findings, stats: Counter):
@@ -416,6 +445,35 @@ def classify(case, direction, findings):
         if d == direction and fid in findings and pred(case):
             return fid
     return None
+
+
+def repeated_none_vars(p) -> set:
+    """names of can_match_none variables (value patterns / attribute variables) that occur at least twice"""
+    occ = Counter()
+    for v, _ in walk_vpats(p):
+        if v[0] == "V" and v[3] and v[2]:
+            occ[v[2]] += 1
+    for n in p["nodes"]:
+        for _, a in n["attrs"]:
+            if a[0] == "v" and a[1] and a[2]:
+                occ[a[1]] += 1
+    return {k for k, n in occ.items() if n >= 2}
+
+
+def removable_json(g, nodes, outs) -> bool:
+    """the property's reading of `_valid_to_replace` on the case's graph: no value computed by a matched node,
+    other than the match outputs, is a graph output or has a consumer outside the match"""
+    keep = set(outs)
+    matched = set(nodes)
+    for i in matched:
+        for o in g["nodes"][i]["outputs"]:
+            if f"v{o}" in keep:
+                continue
+            if o in g["outputs"] or o in g.get("ext", []):
+                return False
+            if any(o in nd["inputs"] for j, nd in enumerate(g["nodes"]) if j not in matched):
+                return False
+    return True
 
 
 def features_of(case, stats: Counter):
@@ -504,6 +562,8 @@ def make_cases(job):
             c = G.gen_case(rng, big=job[3])
             c["commute"] = rng.random() < (0.1 if job[3] else 0.25)
             out.append(c)
+    elif kind == "history":
+        out = G.history_cases(rng, n)
     elif kind == "enum_sample":
         T = enum_tables()
         for _ in range(n):
@@ -564,7 +624,25 @@ def work(args):
             stats["cases"] += 1
             features_of(case, stats)
             tie, prop, direction = judge(case, r, stats)
+            rn = repeated_none_vars(case["pattern"])
+            if rn:
+                stats["feat_can_match_none_var_repeated"] += 1
+                body0 = r["real"].split(" ", 1)[-1]
+                if body0.startswith("M1"):
+                    b0 = parse_match(body0)[0]
+                    if any(b0.get(nm) == "N" for nm in rn):
+                        stats["feat_repeated_var_bound_none_match"] += 1
             if "commute" in r:
+                if not case["rm"]:
+                    # remove_nodes=False & a SWAPPED variant matches & the matched nodes are not removable
+                    for vk, variant in enumerate(r["real_commute"].split(" || ")[2:]):
+                        vb = variant.split(" #K ")[0]
+                        if vb.startswith("M1"):
+                            stats["commute_swapped_variant_match_keep_nodes"] += 1
+                            _, _, vouts, vnodes = parse_match(vb)
+                            if all(isinstance(x, int) or str(x).isdigit() for x in vnodes) and not removable_json(
+                                    case["graph"], [int(x) for x in vnodes], vouts):
+                                stats["commute_swapped_match_keep_nodes_unremovable"] += 1
                 stats["commute_cases"] += 1
                 stats["commute_" + r["real_commute"].split(" ", 1)[0][:14]] += 1
                 if not commute_agree(case, r["real_commute"], r["commute"]):
@@ -577,6 +655,30 @@ def work(args):
                                 problems.append((case, "known:" + fid, what))
                         else:
                             problems.append((case, "property", what))
+            if "hist" in r:
+                stats["hist_cases"] += 1
+                multi = "," in r["real"].split(" ", 1)[0]
+                stats["hist_multi_output_pattern"] += multi
+                stats["hist_same_node_count"] += bool(case.get("hist_same_count"))
+                for hk, (st, rr) in enumerate(zip(case["hist"], r["hist"])):
+                    sub = {"pattern": case["pattern"], "graph": st["graph"], "root": st["root"], "rm": st["rm"]}
+                    stats["hist_calls"] += 1
+                    t2, p2, d2 = judge(sub, rr, stats)
+                    if " M1" in rr["real"]:
+                        stats["hist_later_call_match"] += 1
+                        stats["hist_multi_later_call_match"] += multi
+                        stats["hist_multi_same_count_later_match"] += multi and bool(case.get("hist_same_count"))
+                    where = f"call {hk + 2} on the re-used Pattern object after an in-place edit of the graph: "
+                    if t2:
+                        problems.append((case, "tie-history", where + t2))
+                    if p2:
+                        fid = classify(sub, d2, findings)
+                        if fid:
+                            known_counts[fid] += 1
+                            if known_counts[fid] == 1:
+                                problems.append((sub, "known:" + fid, p2))
+                        else:
+                            problems.append((case, "property", where + p2))
             if tie:
                 problems.append((case, "tie", tie))
             if prop:
@@ -615,6 +717,8 @@ def size_of(case):
 
 def shrink_case(case, still_fails):
     """greedy: drop host nodes that nothing depends on, drop graph decorations"""
+    if case.get("hist"):
+        return case  # a history is replayed as it is (its graphs must keep their leaves)
     cur = json.loads(L.dumps(case))
     for key in ("ext", "foreign"):
         if cur["graph"].get(key):
@@ -652,9 +756,10 @@ def main(run: core.Run) -> None:
         "numeric tolerance of Constant patterns is an abstract relation `close` in the theorems; the driver and the "
         "generated cases use small integers, where math.isclose is equality (C05 judges the tolerance itself)",
         "check callbacks and the condition function are opaque booleans (constant per pattern object)",
-        "the model has no exception channel: where the real matcher raises after an ignored OpIdDispatchOr tag clash "
-        "(open finding C06-F9: ValueError / NotImplementedError out of merge_current_match) the model's answer is not "
-        "compared (the cases are generated and counted as known finding)",
+        "exceptions: the tie is against OV.C06.patternMatchX, which restates the raise statements of "
+        "merge_current_match / PartialMatchResult.merge (ValueError, NotImplementedError; open finding C06-F9) — an "
+        "exception of any other type, or at another place, breaks the tie; exceptions raised by user callbacks are "
+        "not modelled (callbacks are constant booleans)",
     ]
     audit = run.prove(PROP_MODULES)
     drv = core.Driver("C06")
@@ -679,7 +784,8 @@ def main(run: core.Run) -> None:
         run.coverage.update(evaluations=1, distinct_nontrivial=1)
         return
 
-    workers = max(1, min(8, (os.cpu_count() or 2) - 1))
+    # shared machine: at most 4 worker processes (VERIF_C06_WORKERS lowers it, e.g. for two concurrent runs)
+    workers = max(1, min(4, int(os.environ.get("VERIF_C06_WORKERS", "4")), (os.cpu_count() or 2) - 1))
     drift = fingerprint_drift()
     run.coverage["fingerprint_drift"] = drift
     scale = 2 if (drift and run.tier == "quick") else 1
@@ -700,6 +806,8 @@ def main(run: core.Run) -> None:
         jobs.append(("random", run.rng.getrandbits(48), 500, True))
     for _ in range(n_enum // per):
         jobs.append(("enum_sample", run.rng.getrandbits(48), per))
+    for _ in range(run.size(4, 16) * scale):
+        jobs.append(("history", run.rng.getrandbits(48), 1000))
     exhaustive = run.tier == "thorough"
     if exhaustive:
         for k in range(0, len(T["pats2"]), 20):
@@ -831,7 +939,19 @@ def main(run: core.Run) -> None:
                 "feat_foreign_values", "feat_external_uses", "feat_var_can_match_none", "feat_vp_K", "feat_vp_A",
                 "feat_vp_W", "feat_remove_nodes", "feat_via_pattern_function", "commute_cases", "commute_oracle_variants", "commute_K2",
                 "spec_instances_many", "dup_nodes_free_match", "ctor_refused",
-                "known_C06-D11"]
+                "known_C06-D11",
+                # the exception channel (OV.Model.C06Exc): both raise sites reached on the real matcher, and the
+                # model agreeing there
+                "real_exception_ValueError", "real_exception_NotImplementedError", "exception_model_agrees",
+                "total_model_compared_outside_backOk",
+                # histories: one Pattern object and one graph object, edited in place between the calls; the
+                # conjunction "several output nodes & node count unchanged & a later call matches" must occur
+                # a can_match_none variable used twice and bound to None in a reported match; RewriteRule.commute with
+                # remove_nodes=False where a swapped variant matches nodes that could not be removed
+                "feat_can_match_none_var_repeated", "feat_repeated_var_bound_none_match",
+                "commute_swapped_variant_match_keep_nodes", "commute_swapped_match_keep_nodes_unremovable",
+                "hist_cases", "hist_calls", "hist_multi_output_pattern", "hist_same_node_count",
+                "hist_later_call_match", "hist_multi_later_call_match", "hist_multi_same_count_later_match"]
     missing = [k for k in required if not stats.get(k)]
     run.coverage["required_counters_missing"] = missing
     if missing and not run.replay_path and not run.violations:
